@@ -217,6 +217,38 @@ Proof.
   revert l2. induction l1 as [|x r IH]; intros [|y r2] H; cbn in *; try discriminate; [reflexivity|].
   f_equal. apply IH. lia.
 Qed.
+Lemma removelast_length {A} (l : list A) : l <> [] -> S (length (removelast l)) = length l.
+Proof.
+  induction l as [|x [|y r] IH]; intros H; [congruence|reflexivity|].
+  change (removelast (x :: y :: r)) with (x :: removelast (y :: r)). cbn [length].
+  rewrite IH; [reflexivity|discriminate].
+Qed.
+Lemma combine_removelast {A B} (l1 : list A) (l2 : list B) : length l1 = length l2 ->
+  combine (removelast l1) (removelast l2) = removelast (combine l1 l2).
+Proof.
+  revert l2. induction l1 as [|x [|x' r] IH]; intros [|y [|y' r2]] H; cbn in H; try discriminate;
+    try reflexivity.
+  change (removelast (x :: x' :: r)) with (x :: removelast (x' :: r)).
+  change (removelast (y :: y' :: r2)) with (y :: removelast (y' :: r2)).
+  change (combine (x :: x' :: r) (y :: y' :: r2)) with ((x, y) :: combine (x' :: r) (y' :: r2)).
+  change (removelast ((x, y) :: combine (x' :: r) (y' :: r2)))
+    with ((x, y) :: removelast (combine (x' :: r) (y' :: r2))).
+  cbn [combine]. f_equal. apply (IH (y' :: r2)). cbn. lia.
+Qed.
+Lemma Forall_removelast {A} (P : A -> Prop) l : Forall P l -> Forall P (removelast l).
+Proof.
+  induction l as [|x [|y r] IH]; intros H; [constructor|constructor|].
+  change (removelast (x :: y :: r)) with (x :: removelast (y :: r)).
+  inversion H; subst. constructor; [assumption|apply IH; assumption].
+Qed.
+Lemma In_removelast {A} (l : list A) x : In x (removelast l) -> In x l.
+Proof.
+  induction l as [|a [|b r] IH]; intros H; [destruct H|destruct H|].
+  change (removelast (a :: b :: r)) with (a :: removelast (b :: r)) in H.
+  destruct H as [H|H]; [left; exact H|right; apply IH; exact H].
+Qed.
+Lemma length_pos_ne {A} (l : list A) : (0 <? length l)%nat = true -> l <> [].
+Proof. destruct l; cbn; [discriminate|intros _; discriminate]. Qed.
 
 Ltac body_cases :=
   unfold loop_body;
@@ -235,20 +267,36 @@ Ltac body_cases :=
         ode_h ode_running set_y]
   | cbn [fst snd]].
 
+(** one execution of the loop body: the table is unchanged, or one good entry is appended, or
+    the last entry is overwritten by a good entry *)
 Lemma body_entries st : aligned st ->
   let r := loop_body X T0 rTol spinodal paranoid st in
   aligned (fst r) /\
   (entries (fst r) = entries st \/
-   exists e, entries (fst r) = entries st ++ [e] /\ good_entry e /\ snd r = false).
+   exists e, good_entry e /\
+     (entries (fst r) = entries st ++ [e] \/
+      (l_T st <> [] /\ entries (fst r) = removelast (entries st) ++ [e]))).
 Proof.
   intros [A1 A2]. cbv zeta. destruct st as [o pot lT lF lP]. unfold aligned, entries in *.
   cbn [l_ode l_pot l_T l_F l_P] in *.
   body_cases.
   all: try (split; [split; assumption|left; reflexivity]).
+  all: try match goal with H : (_ && _)%bool = true |- _ =>
+         apply andb_prop in H; destruct H as [Hne _]; apply length_pos_ne in Hne end.
+  all: try (assert (NF : lF <> []) by (intros E; subst lF; destruct lT; cbn in *; [congruence|lia]);
+            assert (NP : lP <> []) by (intros E; subst lP; destruct lF; cbn in *; [congruence|lia])).
   all: rewrite ?app_length; cbn [length].
+  all: try (assert (R1 := removelast_length lT Hne); assert (R2 := removelast_length lF NF);
+            assert (R3 := removelast_length lP NP)).
   all: split; [split; lia|right].
-  all: rewrite (combine_snoc lF lP _ _ A2), (combine_snoc lT _ _ _) by (rewrite combine_length; lia).
-  all: eexists; split; [reflexivity|split; [|reflexivity]].
+  all: eexists; split; [|first
+    [ right; split; [assumption|];
+      rewrite <- (combine_removelast lT (combine lF lP)) by (rewrite combine_length; lia);
+      rewrite <- (combine_removelast lF lP) by lia;
+      rewrite (combine_snoc (removelast lF) (removelast lP)) by lia;
+      rewrite (combine_snoc (removelast lT)) by (rewrite combine_length; lia); reflexivity
+    | left; rewrite (combine_snoc lF lP _ _ A2), (combine_snoc lT) by (rewrite combine_length; lia);
+      reflexivity ]].
   all: unfold good_entry; eexists; split; [reflexivity|].
   all: cbn [l_ode l_pot l_T l_F l_P set_l_ode ode_t ode_y] in *.
   all: unfold tested.
@@ -259,16 +307,17 @@ Qed.
 
 Theorem sweep_entries fuel st0 : aligned st0 ->
   let st := trace_dir X fuel T0 rTol spinodal paranoid st0 in
-  aligned st /\ exists new, entries st = entries st0 ++ new /\ Forall good_entry new.
+  aligned st /\ Forall (fun e => In e (entries st0) \/ good_entry e) (entries st).
 Proof.
   intros A0. cbv zeta. unfold trace_dir.
-  apply (run_while_inv (fun st => aligned st /\ exists new, entries st = entries st0 ++ new /\
-                                   Forall good_entry new)).
-  - intros st [A [new [E G]]] _. destruct (body_entries st A) as [A' [Eq|[e [Eq [Ge _]]]]].
-    + split; [exact A'|]. exists new. rewrite Eq. split; assumption.
-    + split; [exact A'|]. exists (new ++ [e]). rewrite Eq, E, app_assoc. split; [reflexivity|].
-      apply Forall_app. split; [exact G|constructor; [exact Ge|constructor]].
-  - split; [exact A0|]. exists []. rewrite app_nil_r. split; [reflexivity|constructor].
+  apply (run_while_inv (fun st => aligned st /\
+           Forall (fun e => In e (entries st0) \/ good_entry e) (entries st))).
+  - intros st [A G] _.
+    destruct (body_entries st A) as [A' [Eq|[e [Ge [Eq|[_ Eq]]]]]]; (split; [exact A'|]); rewrite Eq.
+    + exact G.
+    + apply Forall_app. split; [exact G|constructor; [right; exact Ge|constructor]].
+    + apply Forall_app. split; [apply Forall_removelast; exact G|constructor; [right; exact Ge|constructor]].
+  - split; [exact A0|]. apply Forall_forall. intros e He. left; exact He.
 Qed.
 
 (** ** the tabulated temperatures are strictly monotone *)
@@ -278,6 +327,25 @@ Definition up_inv (st : lstate Fld) : Prop :=
 Definition down_inv (st : lstate Fld) : Prop :=
   decr (l_T st) /\ (forall x, In x (l_T st) -> ode_t (l_ode st) <= x) /\
   (forall x, In x (l_T st) -> x < T0) /\ ode_t (l_ode st) <= T0.
+
+Lemma incr_removelast l : incr l -> incr (removelast l).
+Proof.
+  induction l as [|x [|y [|z r]] IH]; intros H; try exact I.
+  - cbn. auto.
+  - change (removelast (x :: y :: z :: r)) with (x :: removelast (y :: z :: r)).
+    destruct H as [Hxy Hr]. specialize (IH Hr).
+    change (removelast (y :: z :: r)) with (y :: removelast (z :: r)) in *.
+    split; [exact Hxy|exact IH].
+Qed.
+Lemma rev_removelast (l : list R) : rev (removelast l) = tl (rev l).
+Proof.
+  destruct (list_eq_dec Req_EM_T l []) as [E|NE]; [subst; reflexivity|].
+  rewrite (app_removelast_last 0 NE) at 2. rewrite rev_app_distr. reflexivity.
+Qed.
+Lemma incr_tl l : incr l -> incr (tl l).
+Proof. destruct l as [|x r]; [auto|intros [_ H]; exact H]. Qed.
+Lemma decr_removelast l : decr l -> decr (removelast l).
+Proof. unfold decr. rewrite rev_removelast. apply incr_tl. Qed.
 
 Lemma body_up st : (forall o o', rk_step X o = Some o' -> ode_t o < ode_t o') ->
   up_inv st -> up_inv (fst (loop_body X T0 rTol spinodal paranoid st)).
@@ -289,11 +357,13 @@ Proof.
   all: cbn [l_ode l_pot l_T l_F l_P set_l_ode ode_t ode_y] in *.
   all: try (repeat split; [exact I1|intros x Hx; specialize (I2 x Hx); lra|exact I3|lra]).
   all: repeat split;
-    [apply incr_snoc; [exact I1|intros y Hy; specialize (I2 y Hy); lra]
+    [first [apply incr_snoc; [exact I1|intros y Hy; specialize (I2 y Hy); lra]
+           |apply incr_snoc; [apply incr_removelast; exact I1
+                             |intros y Hy; apply In_removelast in Hy; specialize (I2 y Hy); lra]]
     |intros x Hx; apply in_app_or in Hx; destruct Hx as [Hx|[Hx|[]]];
-       [specialize (I2 x Hx); lra|subst x; lra]
+       [try apply In_removelast in Hx; specialize (I2 x Hx); lra|subst x; lra]
     |intros x Hx; apply in_app_or in Hx; destruct Hx as [Hx|[Hx|[]]];
-       [apply I3; exact Hx|subst x; lra]
+       [try apply In_removelast in Hx; apply I3; exact Hx|subst x; lra]
     |lra].
 Qed.
 
@@ -307,22 +377,24 @@ Proof.
   all: cbn [l_ode l_pot l_T l_F l_P set_l_ode ode_t ode_y] in *.
   all: try (repeat split; [exact I1|intros x Hx; specialize (I2 x Hx); lra|exact I3|lra]).
   all: repeat split;
-    [apply decr_snoc; [exact I1|intros y Hy; specialize (I2 y Hy); lra]
+    [first [apply decr_snoc; [exact I1|intros y Hy; specialize (I2 y Hy); lra]
+           |apply decr_snoc; [apply decr_removelast; exact I1
+                             |intros y Hy; apply In_removelast in Hy; specialize (I2 y Hy); lra]]
     |intros x Hx; apply in_app_or in Hx; destruct Hx as [Hx|[Hx|[]]];
-       [specialize (I2 x Hx); lra|subst x; lra]
+       [try apply In_removelast in Hx; specialize (I2 x Hx); lra|subst x; lra]
     |intros x Hx; apply in_app_or in Hx; destruct Hx as [Hx|[Hx|[]]];
-       [apply I3; exact Hx|subst x; lra]
+       [try apply In_removelast in Hx; apply I3; exact Hx|subst x; lra]
     |lra].
 Qed.
 
-Lemma body_keeps st x : In x (l_T st) ->
-  In x (l_T (fst (loop_body X T0 rTol spinodal paranoid st))).
+Lemma body_nonempty st : l_T st <> [] ->
+  l_T (fst (loop_body X T0 rTol spinodal paranoid st)) <> [].
 Proof.
   intros Hx. destruct st as [o pot lT lF lP]. cbn [l_T] in Hx.
   body_cases.
   all: cbn [l_ode l_pot l_T l_F l_P set_l_ode ode_t ode_y] in *.
   all: try exact Hx.
-  all: apply in_or_app; left; exact Hx.
+  all: intros E; apply app_eq_nil in E; destruct E as [_ E]; discriminate.
 Qed.
 End Loop.
 
@@ -336,35 +408,34 @@ Theorem joined_table_sorted_lemma {Fld Hess : Type} (XU XD : ext Fld Hess) (T0 r
   let up := trace_dir XU fuel1 T0 rTol spinodal paranoid (mk_lstate oU None lT lF lP) in
   let down := trace_dir XD fuel2 T0 rTol spinodal paranoid (mk_lstate oD (l_pot up) [] [] []) in
   let TFull := if join_cond (l_T down) then join_T (l_T down) (l_T up) else l_T up in
-  incr TFull /\ In T0 TFull /\ lmin TFull = hd 0 TFull /\ lmax TFull = last TFull 0 /\
+  incr TFull /\ TFull <> [] /\ lmin TFull = hd 0 TFull /\ lmax TFull = last TFull 0 /\
   (forall x, In x (l_T down) -> x < T0) /\ (forall x, In x (l_T up) -> T0 <= x).
 Proof.
   intros HU HD EU ED. unfold first_sweep_lists. cbv zeta.
   set (up := trace_dir XU fuel1 T0 rTol spinodal paranoid _).
   set (down := trace_dir XD fuel2 T0 rTol spinodal paranoid _).
-  assert (Iu : up_inv T0 up /\ In T0 (l_T up)).
+  assert (Iu : up_inv T0 up /\ l_T up <> []).
   { unfold up, trace_dir.
-    apply (run_while_inv (fun st => up_inv T0 st /\ In T0 (l_T st))).
-    - intros st [A B] _. split; [apply body_up; assumption|apply body_keeps; exact B].
+    apply (run_while_inv (fun st => up_inv T0 st /\ l_T st <> [])).
+    - intros st [A B] _. split; [apply body_up; assumption|apply body_nonempty; exact B].
     - unfold up_inv. cbn [l_T l_ode]. rewrite EU. repeat split; try lra.
       + intros x [Hx|[]]. lra.
       + intros x [Hx|[]]. lra.
-      + left; reflexivity. }
+      + discriminate. }
   assert (Id : down_inv T0 down).
   { unfold down, trace_dir. apply (run_while_inv (down_inv T0)).
     - intros st A _. apply body_down; assumption.
     - unfold down_inv, decr. cbn [l_T l_ode rev incr]. rewrite ED. repeat split; try lra.
       + intros x [].
       + intros x []. }
-  destruct Iu as [[U1 [U2 [U3 U4]]] UT0]. destruct Id as [D1 [D2 [D3 D4]]].
+  destruct Iu as [[U1 [U2 [U3 U4]]] UNE]. destruct Id as [D1 [D2 [D3 D4]]].
   assert (S : incr (if join_cond (l_T down) then join_T (l_T down) (l_T up) else l_T up)).
   { destruct (join_cond (l_T down)); [|exact U1]. unfold join_T. apply incr_app; [exact D1|exact U1|].
     intros x y Hx Hy. apply in_rev in Hx. specialize (D3 x Hx). specialize (U3 y Hy). lra. }
-  assert (M : In T0 (if join_cond (l_T down) then join_T (l_T down) (l_T up) else l_T up)).
-  { destruct (join_cond (l_T down)); [|exact UT0]. unfold join_T. apply in_or_app. right. exact UT0. }
-  split; [exact S|]. split; [exact M|].
   assert (NE : (if join_cond (l_T down) then join_T (l_T down) (l_T up) else l_T up) <> []).
-  { intros E. rewrite E in M. destruct M. }
+  { destruct (join_cond (l_T down)); [|exact UNE]. unfold join_T. intros E.
+    apply app_eq_nil in E. destruct E as [_ E]. exact (UNE E). }
+  split; [exact S|]. split; [exact NE|].
   destruct (incr_bounds _ S NE) as [B1 B2].
   repeat split; assumption.
 Qed.
@@ -505,8 +576,11 @@ Theorem sweeps_go_up_then_down :
 Proof. repeat split. Qed.
 Print Assumptions sweeps_go_up_then_down.
 
-(** every point appended by a sweep of the stepping loop, for ANY behaviour of RK45, BFGS and
-    the finite-difference derivatives, carries a bound potential value, and
+(** every entry of the table after a sweep of the stepping loop is an entry the sweep started
+    from or was written by the loop (appended, or overwriting the last node when the new
+    temperature is within 1e-12 T0 of it), and every entry written by the loop -- for ANY
+    behaviour of RK45, BFGS and the finite-difference derivatives -- carries a bound potential
+    value, and
     - with re-minimisation at each step (paranoid): it passed the spinodal test AT the
       tabulated field value and its potential is findLocalMinimum's value at that point;
     - without: it passed the test and carries evaluate / findLocalMinimum there, OR it is the
@@ -518,8 +592,8 @@ Theorem tabulated_points_tested_or_reminimised_partial :
          (fuel : nat) (st0 : lstate Fld),
   aligned st0 ->
   let st := trace_dir X fuel T0 rTol spinodal paranoid st0 in
-  aligned st /\ exists new, entries st = entries st0 ++ new /\
-                           Forall (good_entry X rTol spinodal paranoid) new.
+  aligned st /\
+  Forall (fun e => In e (entries st0) \/ good_entry X rTol spinodal paranoid e) (entries st).
 Proof. intros Fld Hess X T0 rTol spinodal paranoid fuel st0. apply sweep_entries. Qed.
 Print Assumptions tabulated_points_tested_or_reminimised_partial.
 
@@ -528,17 +602,18 @@ Theorem tabulated_points_pass_spinodal_test :
          (fuel : nat) (st0 : lstate Fld),
   aligned st0 ->
   let st := trace_dir X fuel T0 rTol spinodal true st0 in
-  exists new, entries st = entries st0 ++ new /\
-    Forall (fun e => let '(t, (y, p)) := e in
+  Forall (fun e => In e (entries st0) \/
+            let '(t, (y, p)) := e in
               0 < spinodalEvent X spinodal t y /\
               exists v, p = Some v /\
-                ((exists y0 tol, findLocalMinimum X y0 t tol = (y, v)) \/ v = evaluate X y t)) new.
+                ((exists y0 tol, findLocalMinimum X y0 t tol = (y, v)) \/ v = evaluate X y t))
+         (entries st).
 Proof.
   intros Fld Hess X T0 rTol spinodal fuel st0 A.
-  destruct (sweep_entries X T0 rTol spinodal true fuel st0 A) as [_ [new [E G]]].
-  exists new. split; [exact E|]. eapply Forall_impl; [|exact G].
-  intros [t [y p]] [v [Hp [[Ht Hv]|[Hf _]]]]; [|discriminate].
-  split; [exact Ht|]. exists v. split; assumption.
+  destruct (sweep_entries X T0 rTol spinodal true fuel st0 A) as [_ G].
+  eapply Forall_impl; [|exact G].
+  intros [t [y p]] [Hin|[v [Hp [[Ht Hv]|[Hf _]]]]]; [left; exact Hin| |discriminate].
+  right. split; [exact Ht|]. exists v. split; assumption.
 Qed.
 Print Assumptions tabulated_points_pass_spinodal_test.
 
@@ -554,7 +629,7 @@ Theorem joined_table_sorted :
   let up := trace_dir XU fuel1 T0 rTol spinodal paranoid (mk_lstate oU None lT lF lP) in
   let down := trace_dir XD fuel2 T0 rTol spinodal paranoid (mk_lstate oD (l_pot up) [] [] []) in
   let TFull := if join_cond (l_T down) then join_T (l_T down) (l_T up) else l_T up in
-  incr TFull /\ In T0 TFull /\ lmin TFull = hd 0 TFull /\ lmax TFull = last TFull 0 /\
+  incr TFull /\ TFull <> [] /\ lmin TFull = hd 0 TFull /\ lmax TFull = last TFull 0 /\
   (forall x, In x (l_T down) -> x < T0) /\ (forall x, In x (l_T up) -> T0 <= x).
 Proof. intros Fld Hess. exact (@joined_table_sorted_lemma Fld Hess). Qed.
 Print Assumptions joined_table_sorted.
